@@ -1,6 +1,7 @@
 package main
 
 import (
+	"os"
 	"context"
 	"encoding/base64"
 	"encoding/json"
@@ -217,12 +218,48 @@ type callState struct {
 	regSeen int
 	tok401  [2]bool
 	msgs    []string // canonical messages in the order seen
+	hold    time.Duration // the registry sits on its first answer for this long
 }
 
 var errFakeNet = errors.New("fake transport failure")
 
 type authFake struct {
 	origHeader http.Header // headers the harness puts on every registry request
+	// wall clock: when each short-lived token handed out by the token server stops being valid
+	// (host + token -> latest expiry); a registry request carrying one well past that is marked
+	lifeMu  sync.Mutex
+	expires map[string]time.Time
+}
+
+// authExpiryMargin is how far past its expiry a token has to be before the fake registry calls it
+// expired: the client and the fake read the clock at slightly different moments.
+const authExpiryMargin = 300 * time.Millisecond
+
+func (f *authFake) noteGrant(host string, r tokReply) {
+	if r.exp <= 0 || r.exp >= 60 {
+		return
+	}
+	f.lifeMu.Lock()
+	defer f.lifeMu.Unlock()
+	if f.expires == nil {
+		f.expires = map[string]time.Time{}
+	}
+	at := time.Now().Add(time.Duration(r.exp) * time.Second)
+	for _, t := range []string{r.token, r.access} {
+		if t != "" && at.After(f.expires[host+" "+t]) {
+			f.expires[host+" "+t] = at
+		}
+	}
+}
+
+func (f *authFake) expiredBearer(host string, authz []string) bool {
+	if len(authz) != 1 || !strings.HasPrefix(authz[0], "Bearer ") {
+		return false
+	}
+	f.lifeMu.Lock()
+	defer f.lifeMu.Unlock()
+	at, ok := f.expires[host+" "+strings.TrimPrefix(authz[0], "Bearer ")]
+	return ok && time.Now().After(at.Add(authExpiryMargin))
 }
 
 const authRegPath = "/v2/foo/blobs/uploads/"
@@ -325,9 +362,15 @@ func (f *authFake) registry(cs *callState, req *http.Request) (*http.Response, e
 	if req.URL.RawQuery != "" || req.URL.User != nil {
 		ex = append(ex, "url:"+req.URL.String())
 	}
+	if f.expiredBearer(req.URL.Host, req.Header["Authorization"]) {
+		ex = append(ex, "wallclock:bearer-expired")
+	}
 	cs.msgs = append(cs.msgs, withExtras("R,"+tok(req.URL.Host)+","+showAuthz(req.Header["Authorization"]), ex))
 	if n >= 2 {
 		return mkResp(req, 500, nil, "fake: unexpected third attempt"), nil
+	}
+	if n == 0 && cs.hold > 0 {
+		time.Sleep(cs.hold)
 	}
 	r := cs.script.reg[n]
 	if r.fail {
@@ -431,6 +474,7 @@ func (f *authFake) token(cs *callState, req *http.Request, body []byte) (*http.R
 		m["expires_in"] = r.exp
 	}
 	data, _ := json.Marshal(m)
+	f.noteGrant(cs.script.host, r)
 	return mkResp(req, 200, http.Header{"Content-Type": {"application/json"}}, string(data)), nil
 }
 
@@ -506,8 +550,11 @@ func (r *authRun) transport() http.RoundTripper {
 }
 
 // do performs the call and returns the canonical output line and the messages.
-func (r *authRun) do(a *authReq) string {
-	cs := &callState{script: a}
+func (r *authRun) do(a *authReq) string { return r.doHeld(a, 0) }
+
+// doHeld is do with the registry holding back its first answer.
+func (r *authRun) doHeld(a *authReq, hold time.Duration) string {
+	cs := &callState{script: a, hold: hold}
 	ctx := context.WithValue(context.Background(), callKey{}, cs)
 	ctx = ociauth.ContextWithRequestInfo(ctx, ociauth.RequestInfo{RequiredScope: scopeOfTok(a.required)})
 	if a.want != "-" {
@@ -718,9 +765,18 @@ func (e *cauth) Impl(c Case) []string {
 			out[i] = "bad-op"
 		case "batch":
 			// auth batch <n>: the next n `auth breq` lines run concurrently on the same transport
+			// auth batch <n> hold <ms>: the registry holds its first answer to the first of them for <ms>
 			n := 0
-			if len(t) == 3 {
+			var hold time.Duration
+			if len(t) == 3 || len(t) == 5 && t[3] == "hold" {
 				n, _ = strconv.Atoi(t[2])
+				if len(t) == 5 {
+					ms, err := strconv.Atoi(t[4])
+					if err != nil || ms < 0 || ms > 5000 {
+						n = 0
+					}
+					hold = time.Duration(ms) * time.Millisecond
+				}
 			}
 			if n <= 0 || i+n >= len(c.Lines) {
 				out[i] = "bad-op"
@@ -752,12 +808,22 @@ func (e *cauth) Impl(c Case) []string {
 				wg.Add(1)
 				go func() {
 					defer wg.Done()
-					outs[j] = guard(func() string { return run.do(a) })
+					h := time.Duration(0)
+					if j == 0 {
+						h = hold
+					} else if hold > 0 {
+						// the held request is on its way before the others start
+						time.Sleep(100 * time.Millisecond)
+					}
+					outs[j] = guard(func() string { return run.doHeld(a, h) })
 				}()
 			}
 			wg.Wait()
 			run.config.slow.Store(false)
 			out[i] = "ok"
+			if os.Getenv("VERIF_DEBUG") != "" && hold > 0 {
+				fmt.Fprintf(os.Stderr, "held batch %s: %s\n", c.Tag, strings.Join(outs, " | "))
+			}
 			fs := e.batchOracle(c, i, reqs, outs)
 			e.mu.Lock()
 			e.side[caseKey(c)] = append(e.side[caseKey(c)], fs...)
